@@ -182,8 +182,10 @@ impl Sim {
     pub fn with_mon(&mut self, f: impl FnOnce(&mut crate::monitor::MonitorSet, &Sim)) {
         if let Some(mut m) = self.mon.take() {
             f(&mut m, self);
-            if m.wants_halt() {
+            if m.wants_halt() && !self.halted {
                 self.halted = true;
+                m.halt_at = self.trace.len();
+                m.fail_state = crate::monitor::describe(self);
             }
             self.mon = Some(m);
         }
